@@ -8,9 +8,11 @@ Model of the memory view of the console UI (C32): `internal/consoleui/internal/m
 * F29 (the view always has a cursor; a view without lines reports errors instead of dereferencing
   a nil cursor),
 * F80 (`block2Lines` and `formatMemLine` iterate over window numbers / offsets, so that the last
-  16-byte window of the address space does not wrap `uint64`),
-* F81 (the `address` command finds the row whose window contains the address, stored byte or not;
-  the search of the pinned tree is kept as `findLinePinned`).
+  16-byte window of the address space does not wrap `uint64`).
+
+The `address` command selects the first row one of whose *stored ranges* contains the address (the
+reading of the property fixed in DESIGN §6).  The wider reading "the row whose window contains the
+address" is kept as an observation (F81, `findLineWindow`/`cmdAddressWindow`); it is not the code.
 
 Addresses are `Nat` (Go: `model.Addr = uint64`).  After F80 no address computation of
 `block2Lines`, `memoryLines`, `addEmptyLines` can wrap for blocks with `end ≤ 2^64-1`, except the
@@ -183,13 +185,12 @@ def cmdDown (v : View) (n : Nat) : Option View := cursorSet v (wrapInt ((v.curso
 def cmdUp (v : View) (n : Nat) : Option View := cursorSet v (wrapInt ((v.cursor : Int) - n))
 def cmdGoto (v : View) (n : Nat) : Option View := cursorSet v n
 
-/-- `len(l.ranges) > 0 && addr-l.addr < bytesPerLine` (`uint64` subtraction; after F81) -/
-def lineHasAddr (a : Nat) (l : Line) : Bool :=
-  !l.ranges.isEmpty && decide ((a + 2 ^ 64 - l.addr) % 2 ^ 64 < bytesPerLine)
+/-- `r.Containts(addr)` -/
+def contains (r : Range) (a : Nat) : Bool := decide (r.1 ≤ a) && decide (a < r.2)
 
-/-- the search loop of the `address` command: the first row whose window contains `a` -/
+/-- the search loop of the `address` command: the first line with a stored range containing `a` -/
 def findLine (a : Nat) (lines : List Line) : Option Nat :=
-  let idx := lines.findIdx (lineHasAddr a)
+  let idx := lines.findIdx fun l => l.ranges.any fun r => contains r a
   if idx < lines.length then some idx else none
 
 /-- command `address <a>` -/
@@ -198,16 +199,17 @@ def cmdAddress (v : View) (a : Nat) : Option View :=
   | none => none
   | some idx => cursorSet v idx
 
-/-- `r.Containts(addr)` -/
-def contains (r : Range) (a : Nat) : Bool := decide (r.1 ≤ a) && decide (a < r.2)
+/-- Observation F81 (not the code): the wider reading "the row whose *window* contains `a`",
+`len(l.ranges) > 0 && addr-l.addr < bytesPerLine` with `uint64` subtraction -/
+def lineHasAddr (a : Nat) (l : Line) : Bool :=
+  !l.ranges.isEmpty && decide ((a + 2 ^ 64 - l.addr) % 2 ^ 64 < bytesPerLine)
 
-/-- the search loop of the pinned tree (F81): the first line with a *stored range* containing `a` -/
-def findLinePinned (a : Nat) (lines : List Line) : Option Nat :=
-  let idx := lines.findIdx fun l => l.ranges.any fun r => contains r a
+def findLineWindow (a : Nat) (lines : List Line) : Option Nat :=
+  let idx := lines.findIdx (lineHasAddr a)
   if idx < lines.length then some idx else none
 
-def cmdAddressPinned (v : View) (a : Nat) : Option View :=
-  match findLinePinned a v.lines with
+def cmdAddressWindow (v : View) (a : Nat) : Option View :=
+  match findLineWindow a v.lines with
   | none => none
   | some idx => cursorSet v idx
 
